@@ -1,13 +1,17 @@
 # Registered checks: property id -> harness files, entries, bounds.  See DESIGN.md section 3.
 SPECS = {
  "C05": {
-  "explanation": "Real util::taggedData / featureData / getOffsetAndCount / positionToIndex / Dimension::indexOf / index kernels / DataView on arrays stored in the HDF5 model; array rank, extents and dimension kinds by fork, tag positions/extents and range ticks symbolic doubles; oracle: per specified dimension the set of indices whose coordinate lies in the region (inclusive/exclusive), point rule for absent/zero extent, whole axis for unspecified dimensions; returned view compared element by element.",
-  "bounds": {"quick": {"rank": "1..2", "extent_per_axis": "1..2", "dimension_kinds": ["set with labels", "set without labels", "sampled (1,0) (0.5,0) (1,-1)", "range with symbolic ticks"], "position_entries": "1..rank+1", "positions/extents": "symbolic doubles, |v| < 1e15, non-NaN"},
-             "thorough": {"rank": "1..2", "extent_per_axis": "1..3"}},
-  "outside": ["sampling intervals/offsets other than the three binary-exact pairs (kernel: C07)", "rank 3", "extents > 3", "units other than none (C18)", "data-frame dimensions in this harness"],
-  "assumptions": ["libhdf5 replaced by h5model"],
-  "harnesses": [{"file": "C05_tag.cpp", "defines": {"quick": ["-DVH_MAXRANK=2", "-DVH_MAXEXT=2"], "thorough": ["-DVH_MAXRANK=2", "-DVH_MAXEXT=3"]},
-     "entries": [{"entry": "vh_c05_tagged", "label": "vh_c05_tagged.r%d" % r, "fix": {"rank": r}} for r in range(2)] + [{"entry": "vh_c05_feature", "label": "vh_c05_feature.r%d" % r, "fix": {"rank": r}} for r in range(2)]}]},
+  "explanation": "Real util::taggedData / featureData / getOffsetAndCount / positionToIndex / Dimension::indexOf pair logic / getIndex / DataView / back-end on arrays stored in the HDF5 model; rank, extents and descriptor kinds (labelled set, set, sampled, range with symbolic ticks, data-frame) by fork, tag positions/extents symbolic doubles; oracle: per specified dimension the index set whose coordinate lies in the region (inclusive/exclusive), point rule for absent/zero extent, whole axis for unspecified dimensions, error iff empty or outside the data; the returned view is compared element by element. Quick tier: the three arithmetic index kernels are replaced by the relation C07 decides for them (comparison-only contract); thorough tier adds runs with the real kernels.",
+  "bounds": {"quick": {"rank": "1..2", "extent_per_axis": "1..2", "dimension_kinds": ["set with labels", "set without labels", "sampled (1,0) (0.5,-1)", "range with symbolic ticks", "data-frame"], "position_entries": "1..rank+1", "positions/extents": "symbolic doubles, |v| < 1e15, non-NaN; on unbounded axes (sampled, unlabelled set) regions ending beyond coordinate extent+1 are outside the bound"},
+             "thorough": {"rank": "1..3 (contract kernels), 1 (real kernels)", "extent_per_axis": "1..3", "sampled": "(1,0) (0.5,-1) (0.1,0) (3,100.25)"}},
+  "outside": ["symbolic sampling intervals/offsets (kernel: C07)", "extents above the bound", "units other than none (C18)", "behaviour of the arithmetic index kernels themselves in the quick tier (C07)"],
+  "assumptions": ["libhdf5 replaced by h5model", "quick tier: getSampledIndex/getSetIndex/getDataFrameIndex satisfy the C07 relation exactly (contract stub in harness/tagging.hpp)"],
+  "harnesses": [{"file": "C05_tag.cpp", "defines": {"quick": ["-DVH_MAXRANK=2", "-DVH_MAXEXT=2", "-DVH_NSAMPLING=2"], "thorough": ["-DVH_MAXRANK=3", "-DVH_MAXEXT=3", "-DVH_NSAMPLING=4"]},
+     "entries": [{"entry": e, "label": "%s.r0.k%d" % (e, k), "fix": {"rank": 0, "kind#0": k}} for e in ("vh_c05_tagged", "vh_c05_feature") for k in range(5)]
+               + [{"entry": "vh_c05_tagged", "label": "vh_c05_tagged.r1.f%d.k%d" % (f, k), "fix": {"rank": 1, "focus": f, "n": 1, "kind#%d" % f: k, "kind#%d" % (1 - f): [1, 3, 4, 0, 1][k]}, "tiers": ["quick"]} for f in range(2) for k in range(5)]
+               + [{"entry": e, "label": "%s.r1.f%d.k%d.o%d" % (e, f, k, o), "fix": {"rank": 1, "focus": f, "kind#%d" % f: k, "kind#%d" % (1 - f): o}, "tiers": ["thorough"]} for e in ("vh_c05_tagged", "vh_c05_feature") for f in range(2) for k in range(5) for o in range(5)]
+               + [{"entry": "vh_c05_tagged", "label": "vh_c05_tagged.r2.f%d.k%d" % (f, k), "fix": dict([("rank", 2), ("focus", f), ("n", 1)] + [("kind#%d" % d, (k if d == f else (k + 1 + d) % 5)) for d in range(3)]), "tiers": ["thorough"]} for f in range(3) for k in range(5)]
+               + [{"entry": "vh_c05_tagged", "label": "vh_c05_tagged.real.k%d" % k, "fix": {"rank": 0, "kind#0": k}, "no_replace": ["getSampledIndex", "getSetIndex", "getDataFrameIndex"], "tiers": ["thorough"]} for k in (0, 1, 3, 4)]}]},
  "C01": {
   "explanation": "Full stack on the HDF5 model for 10 numeric element types plus Bool and String: bounded histories of hyperslab writes (offset/count inside, touching and crossing the edge), appends along each axis, extent changes (grow/shrink) and sub-region reads with symbolic element values, compared with a dense reference array after every step and after reopen; reads as other numeric types; calibration polynomial/origin in the exact regime (integer-valued doubles) with raw reads unaffected; kernel checks of applyPolynomial (arbitrary doubles, order-independent facts) and guessChunking.",
   "bounds": {"quick": {"history_steps": 2, "rank": "1..2", "extent": "<= 3 per axis (4 after append)", "values": "symbolic, full range of the type", "polynomial": "degree <= 2, |coef| < 1024, |x|,|origin| < 256"},
